@@ -213,18 +213,27 @@ META["C13"] = {
     "assumptions": ["CPython: literal_eval(parse(repr(v))) == v with equal type for the C13 value types"],
 }
 META["C16"] = {
-    "level": "exploration",
-    "level_text": "Bounded contract check only: on ~200 seeded and directed histories of "
-    "QMetaData/operator/branch steps (3 keys, repeated and consecutive calls, dataset roots and "
-    "derived streams, two roots) lookup_query_metadata of every key on every live stream equals the "
-    "abstract view 'most recent value on the derivation path'; the query handed to executors is "
-    "compared with the spec of the same chain. QMetaData and the finder are not yet under engine P "
-    "(heap view of DESIGN §4 C16 not built).",
-    "level_note": "Bounded stand-in; nothing is counted as proved for this property.",
-    "technique": "bounded contract check of the QMetaData / lookup_query_metadata contracts on the real code (labelled stand-in; no obligation discharged deductively)",
-    "p_keys": False,
-    "explanation": "bounded only",
-    "assumptions": ["histories bounded: <= 14 steps"],
+    "level": "other",
+    "level_text": "The lookup side is under contract and discharged for every tree: "
+    "lookup_query_metadata / _finder.generic_visit return last(qmd_hits(query, key)) — the value at "
+    "the defining node met last by a search that does not look below a node defining the key, None "
+    "if there is none (visitor with state `_found`; `_q_metadata` is a ghost attribute of the node: "
+    "not a field, hence invisible to ast.dump and to the hash by the node model). The store side "
+    "(QMetaData: shallow copy of the top node, merge with the dictionary already there) depends on "
+    "node identity under copy.copy, which the term view cannot express: it is checked bounded — on "
+    "~200 (quick) / ~2000 (thorough) seeded and directed histories of QMetaData / operator / branch "
+    "steps (3 keys, repeated and consecutive calls, dataset roots and derived streams, two roots) "
+    "lookup of every key on every live stream equals the abstract view 'most recent value on the "
+    "derivation path', and the query handed to executors equals that of the same chain without "
+    "QMetaData.",
+    "level_note": "Proved: the finder. Bounded: QMetaData itself and the path semantics of whole "
+    "histories. Assumed: wherever `_q_metadata` exists it is None or a dict (input invariant "
+    "qmd_ok, established by QMetaData being the only writer).",
+    "technique": "sidecar contract on lookup_query_metadata and its visitor (ghost attribute, state effect, z3); bounded history contract check for QMetaData (labelled stand-in: node identity under copy.copy is outside the term view)",
+    "p_keys": True,
+    "explanation": "finder proved; store side bounded",
+    "assumptions": ["`_q_metadata` attributes hold None or a dict (qmd_ok)",
+                    "histories of the bounded part: <= 14 steps"],
 }
 
 META["C07"] = {
